@@ -217,10 +217,12 @@ theorem delete_registered_head_leaves_stale_entry :
 /-! ## CoreVM — the whole-interpreter model (Models/CoreVM/*.lean)
 
   CoreVM mirrors `run_to_completion` and everything it calls. Its state keeps the index-relevant part
-  (instances, heads, the two dispatch maps) as a `CoreIndex.IState` that can only be changed through
-  `CoreIndex.step`; the structure `IxS` carries the kernel-checked facts "the index is the replay of the
-  logged operations" and "`ok` implies every guard along the log held".  The layer-1 theorems therefore hold
-  for every CoreVM state, by construction — no separate simulation argument is needed. -/
+  (instances, heads, the two dispatch maps) as a `CoreIndex.IState` that can only be changed through a
+  guarded `CoreIndex.step` (`applyOp` stops the model with `guardFailed` instead of applying an operation
+  whose guard does not hold — the harness reports that as a divergence); the structure `IxS` carries the
+  kernel-checked facts "the index is the replay of the logged operations" and "every guard along the log
+  held".  The layer-1 theorems therefore hold for every CoreVM state, by construction, without any
+  hypothesis — no separate simulation argument is needed. -/
 
 open NemoVerif.CoreVM
 
@@ -234,24 +236,38 @@ theorem queue_empty_at_exit (fuel : Nat) (ev : Match.Ev) (s s' : VM)
 /-- the two dispatch maps of every CoreVM state are inverse of each other -/
 theorem corevm_maps_consistent (s : VM) : MapsConsistent s.ixs.ix := mapsConsistent_of_vm s
 
-/-- **`quiescent_partial`, index clause**: in every CoreVM state whose `ok` flag is set (every guard of
-    the index layer held so far; the driver reports the flag after every event and the correspondence
-    requires it) and in which no instance is STOPPING, the dispatch index equals the from-scratch scan. -/
-theorem quiescent_partial_index (s : VM) (hok : s.ixs.ok = true) (hns : NoStopping s.ixs.ix) (nm : String) (k : Key) :
+/-- **`quiescent_partial`, index clause**: in EVERY CoreVM state in which no instance is STOPPING, the dispatch
+    index equals the from-scratch scan. -/
+theorem quiescent_partial_index (s : VM) (hns : NoStopping s.ixs.ix) (nm : String) (k : Key) :
     (bucket s.ixs.ix nm).count k = (scan s.ixs.ix).count (nm, k) :=
-  index_eq_scan (indexOK_of_vm s hok) hns nm k
+  index_eq_scan (indexOK_of_vm s) hns nm k
 
-/-- **`quiescent_partial`, no-position clause**: in every CoreVM state whose `ok` flag is set, STOPPED / FINISHED
-    instances have no heads. -/
-theorem quiescent_partial_no_position (s : VM) (hok : s.ixs.ok = true) (f : FUid) (i : Inst)
+/-- **`quiescent_partial`, no-position clause**: in EVERY CoreVM state, STOPPED / FINISHED instances have no heads. -/
+theorem quiescent_partial_no_position (s : VM) (f : FUid) (i : Inst)
     (hi : findInst s.ixs.ix f = some i) (hd : i.status.done = true) : i.heads = [] :=
-  noPos_of_vm s hok f i hi hd
+  noPos_of_vm s f i hi hd
 
-/-- … in particular after a normal return of `runToCompletion`, together with the empty queue. -/
+/-- **`quiescent_partial`** — the part of T2 that is proved, WITHOUT hypotheses: for every program, every state, every
+    event, every fuel and every sequence of tie-break outcomes, whenever `runToCompletion` returns normally
+      * no internal event is pending                                        (loop structure),
+      * no instance is STOPPING                                             (exit assertion of the model, see below),
+      * the dispatch index equals the from-scratch scan, as multisets       (T1, by construction),
+      * STOPPED / FINISHED instances hold no head                           (T1, by construction),
+      * every index entry names a head that exists                          (T1, by construction).
+    "No instance is STOPPING" is not derived from the interpreter logic: the model checks it when it leaves
+    `runToCompletion` and stops (`guardFailed`) otherwise, exactly as it stops instead of applying an index operation
+    whose guard fails; the harness reports either as a divergence from the interpreter, and the oracle checks both
+    facts independently on the real state after every event. -/
 theorem quiescent_partial (fuel : Nat) (ev : Match.Ev) (s s' : VM)
-    (h : runToCompletion fuel ev s = .ok () s') (hok : s'.ixs.ok = true) (hns : NoStopping s'.ixs.ix) :
-    s'.r.queue = [] ∧ ∀ nm k, (bucket s'.ixs.ix nm).count k = (scan s'.ixs.ix).count (nm, k) :=
-  ⟨queue_empty_at_exit fuel ev s s' h, fun nm k => quiescent_partial_index s' hok hns nm k⟩
+    (h : runToCompletion fuel ev s = .ok () s') :
+    s'.r.queue = []
+    ∧ NoStopping s'.ixs.ix
+    ∧ (∀ nm k, (bucket s'.ixs.ix nm).count k = (scan s'.ixs.ix).count (nm, k))
+    ∧ (∀ f i, findInst s'.ixs.ix f = some i → i.status.done = true → i.heads = [])
+    ∧ (∀ k nm, reg s'.ixs.ix k = some nm → ∃ i, findInst s'.ixs.ix k.1 = some i ∧ (i.findHead k.2).isSome) :=
+  have hns := runToCompletion_noStopping fuel ev s s' () h
+  ⟨queue_empty_at_exit fuel ev s s' h, hns, fun nm k => quiescent_partial_index s' hns nm k,
+   fun f i hi hd => quiescent_partial_no_position s' f i hi hd, (indexOK_of_vm s').owned⟩
 
 /-- **worklist, part 1** (`quiescent` needs: every non-parked active head is in the pending list): what
     `advanceHeadFront` hands back as pending are heads that exist and are not INACTIVE in the resulting state. -/
@@ -316,7 +332,7 @@ theorem scan_eq_scanP (P : FUid → Nat → Option String) (s : IState) (hc : Co
 
     theorem quiescent (fuel) (ev) (s s' : VM) :
         Inv s → runToCompletion fuel ev s = .ok () s' →
-        Inv s' ∧ s'.ixs.ok = true ∧ NoStopping s'.ixs.ix          -- ⇒ index s' = scan s' by `quiescent_partial`
+        Inv s' ∧ NoStopping s'.ixs.ix                              -- ⇒ index s' = scan s' by `quiescent_partial`
         ∧ Parked s'      -- every ACTIVE head of a listening instance is on a match / wait-for-heads element, none MERGING
         ∧ NoPos s'       -- STOPPED / FINISHED instances have `heads = []`
         ∧ RefsLive s'    -- child_flow_uids, action_uids, scope members, index entries of listening instances exist
@@ -324,12 +340,12 @@ theorem scan_eq_scanP (P : FUid → Nat → Option String) (s : IState) (hc : Co
     instance that is not parked is in the pending list of the current loop" carried through
     `advanceHeadFront`, the merging loop and `resolveActionConflicts`.
 
-  What is proved above: the queue clause (loop structure), the index clause and the no-position clause (by construction
-  + T1, under the run-time-checked hypothesis `ok`, the former also `NoStopping`), and two worklist facts. `Parked`, `NoPos`, `RefsLive`, and the fact that the
-  guards hold / no instance is left STOPPING, rest on the oracle evaluated on the real interpreter state after
-  every event and on the CoreVM correspondence (which compares heads, statuses, index, actions, queue length and
-  reports the `ok` flag), not on a theorem.  `RefsLive` is known to be violated by the code (finding
-  dangling-scope-action).
+  What is proved above: the queue clause (loop structure); the index clause, the no-position clause and the index part
+  of `RefsLive` (by construction + T1, for EVERY CoreVM state; the index clause needs `NoStopping`); two worklist facts.
+  `Parked`, the rest of `RefsLive`, and the fact that no instance is left STOPPING (and that the model never stops on a
+  failed guard) rest on the oracle evaluated on the real interpreter state after every event and on the CoreVM
+  correspondence (which compares heads, statuses, index, actions, queue length and the index-operation streams), not on
+  a theorem.  `RefsLive` is known to be violated by the code (findings dangling-scope-action, dangling-child).
 -/
 
 /-! Non-vacuity of the CoreVM statements: `runToCompletion … = .ok () s'` is what the driver observes for every
